@@ -41,10 +41,28 @@ NEEDS = {
  "C15-d": "a non-numeric score in an Optional[int] column (BED6/narrowPeak) with at least one '.' placeholder before it in the same chunk: the row index among the present rows is not mapped back through the placeholder mask",
  "C20-d": "merge_intervals(t, distance > 0) (also Genome.get_intervals(t).merged(distance)) on a table whose stop column is already non-decreasing (no nested interval): the running maximum is skipped and 'stops += distance' runs on the caller's column",
  "C20-e": "bnp.as_encoded_array(text, QualityEncoding) (or SequenceEntryWithQuality(quality=text)) where text is an in-memory writeable ASCII array: the offset is subtracted in place, the caller's text now holds the codes",
+ "C12-c": "grouping column that is ragged text (a `str`-typed field of a user-defined entry type, not an identifier array), a contig name that is a proper prefix of the next group's name (chr1 / chr10), both groups inside one in-memory table or chunk: the length comparison is dropped and the second group is delivered inside the first",
+ "C12-d": "an in-memory, genome-encoded table handed to the streamed machinery (streamed_track[in_memory_intervals], get_intervals(table).as_stream()) whose contig groups are contiguous but NOT in genome order: a searchsorted fast path cuts it without checking the order, rows of chr2 are handed to chr1",
+ "C16-c": "a CIGAR operation of length >= 2**27 (e.g. 140000000N): the packed words are cast to int32 before shifting, the length comes out negative and the interval end is 2**28 too small",
+ "C16-d": "a lazily read BAM selected with a STEPPED slice (t[::2], t[1::2], t[::-1]) and then written: the slice of a packed buffer stays 'contiguous' and the skipped records are written too",
+ "C17-c": "interval fetch through the string-encoded fast path when the label list of the intervals' StringEncoding differs from the .fai rows in order or content (sorted labels, a subset, Genome.from_file(sort_names=True)): the per-call index table is replaced by one in file order",
+ "C17-d": "a record with exactly ONE sequence line fetched with idx[name], the result KEPT, then another whole contig fetched: the reused read block is returned as a view, the earlier result silently turns into bytes of the later one",
  "C20-b": "an in-memory EncodedRaggedArray with at least one '+'-signed number and NO negative number passed to str_to_int: results stay right, the caller's array is zeroed at the sign",
+}
+# seeded changes that the checks as they stood at the first intake did NOT catch, and what was changed afterwards
+FIRST_MISSED = {
+ "C20-b": "first intake: missed by C20 (the API actor's integer texts always contained a negative number); fixed by calling the converters on '+'-signed-only / unsigned / positive-decimal / scientific batches",
+ "C17-d": "first intake: missed by C17 (each idx[name] was compared straight away); fixed by keeping the fetched contigs and comparing them again after all later fetches",
+ "C16-c": "first intake: missed by C16 (generated CIGAR lengths stopped at 200000); fixed by drawing lengths around 2**27 and up to 2**28-1",
+ "C16-d": "first intake: missed by C16 (write-back selections were masks and permutations), caught by C05's BAM twin; fixed by a stepped-slice write mode in C16",
+ "C12-c": "first intake: missed by C12 and C11 (all generated tables used identifier-array contig columns); fixed by in-memory sources of a user-defined entry type with a `str` contig column (table_strkey)",
+ "C12-d": "first intake: missed by C12 and C11 (in-memory tables were only handed to the contig-list consumers); fixed by the pileup_index_memory consumer (streamed pileup indexed with in-memory intervals given to Genome.get_intervals)",
 }
 for p in sorted(glob.glob(os.path.join(VERIF, "seeded", "*", "meta.json"))):
     m = json.load(open(p))
+    fm = FIRST_MISSED.get("-".join(m["id"].split("-")[:2]))
+    if fm:
+        m["first_intake"] = fm
     key = "-".join(m["id"].split("-")[:2])
     if key in NEEDS:
         m["needs"] = NEEDS[key]
